@@ -53,6 +53,7 @@ def run(ctx):
     ctx.rule("C05.R3", "calling-convention skeleton: argument registers marked used before the call, call declares clobbers, return register marked defined after it; entry defines argument registers; exit keeps the return register live", floor=20)
     ctx.rule("C05.R4", "save-set partition: every allocatable register is either declared clobbered by calls or saved by the callee", floor=40)
     phi_lowering(ctx, "C05.R6")
+    _every_call_declares_clobbers(ctx)
     ctx.rule("C05.R5", "riscv large immediates: lui part incremented exactly when bit 11 of the value is set; addi takes the low 12 bits", floor=3)
     project = ctx.project
     dump = ctx.isa()
@@ -349,6 +350,85 @@ def phi_lowering(ctx, rid):
     live = [t for t in tests if "used_by" in t]
     ok = bool(live) and "isinstance(user, ir.Phi)" in live[0] and "user.block is not" in live[0] and live[0].startswith("not any(")
     ctx.ob(rid, site, "an edge is left alone only if no phi of the successor is used by another phi or outside the successor block (then its register is dead on the other ways out)", ok, construct="skip-only-when-dead", detail=str(live))
+
+
+# constructions of a call-like class that are not calls the allocator has to know about (one reason per named site)
+NOT_AN_ALLOCATED_CALL = {
+    ("ppci/arch/riscv/arch.py", "RiscvArch.gen_epilogue", "Blr"): "jalr x0, ra, 0 is the function return (link register x0): nothing is live after it",
+    ("ppci/arch/riscv/rvc_instructions.py", "CBlr.render", "Blr"): "relaxation of the compressed form after register allocation",
+    ("ppci/arch/arm/arm_instructions.py", "call_internal2", "Bl"): "call of the hand-written runtime routine __sdiv/__udiv: R1 and R2 are defined right before and R0 right after the call (so they interfere with everything live across it), the routine saves r4 and touches nothing else",
+    ("ppci/arch/arm/arm_instructions.py", "pattern_inv32", "Bl"): "same shape: R1 defined before, R0 after; helper symbol is resolved at link time",
+}
+
+
+# call instruction classes per architecture package, discovered from the constructions that carry clobbers= and confirmed by reading
+# each class definition (branch-and-link / call mnemonics).  A class that is constructed with clobbers= but is not listed fails the
+# check (the table has to be extended), so a new call instruction cannot stay outside the rule.
+CALL_CLASSES = {
+    "ppci/arch/arm": {"Bl", "Blx"},
+    "ppci/arch/avr": {"Call", "Icall"},
+    "ppci/arch/m68k": {"Jalr", "Bsr"},
+    "ppci/arch/microblaze": {"Brald", "Brlid_label"},
+    "ppci/arch/mips": {"Jal", "Jalr"},
+    "ppci/arch/msp430": {"call", "Call"},
+    "ppci/arch/or1k": {"Jal", "Jalr"},
+    "ppci/arch/riscv": {"Bl", "Blr", "CBl", "CBlr"},
+    "ppci/arch/x86_64": {"Call", "CallReg"},
+    "ppci/arch/xtensa": {"Call0", "Callx0"},
+}
+
+
+def _every_call_declares_clobbers(ctx):
+    """R7.  The register allocator learns what a call destroys from the `clobbers=` argument of the call INSTRUCTION.
+    An architecture has several call instructions (label / register target, compressed or not); each construction of
+    one of them - directly or through a local alias such as `jal = CBlr if rvc else Blr` - has to declare the set,
+    or values that live across that kind of call are kept in caller-saved registers."""
+    ctx.rule("C05.R7", "every construction of a call instruction declares its clobbers: the call instruction classes of each architecture package (table confirmed by reading; a class first seen with clobbers= must be listed) are constructed with clobbers= everywhere in that package (local aliases and conditional class selection followed)", floor=20)
+    project = ctx.project
+    import os
+    by_pkg = {}
+    for rel, mod in project.modules.items():
+        if rel.startswith("ppci/arch/") and rel.count("/") >= 3:
+            by_pkg.setdefault(rel.rsplit("/", 1)[0], []).append(mod)
+    n = 0
+    for pkg, mods in sorted(by_pkg.items()):
+        # per function: local aliases  name -> set of class names
+        cons = []   # (mod, qual, call node, {class names}, has_clobbers)
+        for mod in mods:
+            for q, fn in mod.defs.items():
+                if not isinstance(fn, ast.FunctionDef):
+                    continue
+                alias = {}
+                for a in ast.walk(fn):
+                    if isinstance(a, ast.Assign) and len(a.targets) == 1 and isinstance(a.targets[0], ast.Name):
+                        v = a.value
+                        opts = [v.body, v.orelse] if isinstance(v, ast.IfExp) else [v]
+                        if all(isinstance(o, (ast.Name, ast.Attribute)) for o in opts):
+                            alias.setdefault(a.targets[0].id, set()).update(norm(o).split(".")[-1] for o in opts)
+                for c in walk_no_nested(fn):
+                    if isinstance(c, ast.Call) and isinstance(c.func, (ast.Name, ast.Attribute)):
+                        nm = norm(c.func).split(".")[-1]
+                        names = alias.get(nm, {nm}) if isinstance(c.func, ast.Name) else {nm}
+                        cons.append((mod, q, c, names, any(k.arg == "clobbers" for k in c.keywords)))
+        call_like = set(CALL_CLASSES.get(pkg, ()))
+        for mod, q, c, names, has in cons:
+            if has:
+                new = {x for x in names if x[:1].isupper()} - call_like
+                if new:
+                    ctx.ob("C05.R7", "%s:%s" % (mod.rel, q), "a class constructed with clobbers= is a listed call instruction of %s" % pkg, False, construct="unlisted-call-class:%s" % "/".join(sorted(new)), node=c,
+                           detail="add %s to CALL_CLASSES after reading its definition" % sorted(new))
+        # only instruction classes (a helper function such as call_function(context, .., clobbers=..) is not a constructor)
+        for mod, q, c, names, has in cons:
+            hit = names & call_like
+            if not hit:
+                continue
+            why = [NOT_AN_ALLOCATED_CALL.get((mod.rel, q, h)) for h in sorted(hit)]
+            if not has and all(why):
+                ctx.saw("not-allocated-calls", "%s:%s %s - %s" % (mod.rel, q, "/".join(sorted(hit)), why[0]))
+                continue
+            n += 1
+            ctx.ob("C05.R7", "%s:%s" % (mod.rel, q), "the call instruction %s is constructed with clobbers=" % "/".join(sorted(hit)), has, construct="call-clobbers:%s:%s" % (q, "/".join(sorted(hit))), node=c, detail=norm(c)[:80])
+    ctx.need(n >= 20, "constructions of call instructions: %d found, at least 20 confirmed by reading" % n)
 
 
 def try_const_(n):
